@@ -96,7 +96,7 @@ func checkC15(c *an.Ctx) {
 	if bfd := p.Func("internal/config", "", "buildFromDefinition"); bfd != nil {
 		inclusionCycles(c, bfd, "C15.5")
 	}
-	toleratedSentinels(c, "C15.6")
+	toleratedSentinels(c, "C15.6", false)
 	guardedDocumentMerges(c, fns, "C15.7")
 	decodeHooks(c, "C15.8")
 	_ = p
